@@ -1100,6 +1100,13 @@ def coq_rerr(err) -> str:
         if m:
             return f"(RProcess (KInvalidChar {coq_str(m.group(1))}))"
     if exc == "JMCValueError":
+        # C13 triage round 5 (fixes/C13-compile-time-arithmetic.patch): the Python exceptions of the expression evaluator no
+        # longer escape from Hardcode.calc; each is reported by its own JMC diagnostic.  The model keeps naming the stop by the
+        # exception kind, so the diagnostic is mapped back to it (on a tree without the patch these messages do not occur).
+        for text, kind in (("Division by zero in Hardcode.calc", "XZeroDiv"), ("Expression cannot be parsed in Hardcode.calc", "XSyntax"),
+                           ("Expression is not arithmetic in Hardcode.calc", "XType"), ("Result is too large in Hardcode.calc", "XOverflow")):
+            if text in msg:
+                return f"(RProcess (KPy {kind}))"
         if "positional arguments, got" in msg:
             return "(RProcess KBindCount)"
         m = re.search(r"unexpected keyword argument '([^']*)'", msg)
